@@ -71,6 +71,11 @@ pub struct Setup {
     pub start_mode: bool,
     /// false: a CUP handler is supplied but Config::omaha_public_keys (informational) stays None
     pub keys_in_config: bool,
+    /// Which sequence of StateMachineBuilder calls configures the machine (all equivalent by the API):
+    /// 0 = everything through new(); 1 = new(placeholder config, Some(handler)).config(real);
+    /// 2 = new(real config, None).cup_handler(handler); 3 = new(placeholder, None).config(real).cup_handler(handler);
+    /// 4 = new(placeholder, None).cup_handler(handler).config(real).
+    pub builder_order: u8,
 }
 impl Default for Setup {
     fn default() -> Self {
@@ -81,6 +86,7 @@ impl Default for Setup {
             cup: false,
             start_mode: false,
             keys_in_config: true,
+            builder_order: 0,
         }
     }
 }
@@ -221,11 +227,24 @@ impl Driver {
         let w = &self.w;
         let setup = self.setup.clone();
         let config = make_config(&setup, w);
-        let cup = client_public_keys(w).as_ref().map(StandardCupv2Handler::new);
-        let cup = if setup.cup { cup } else { None };
+        let mk_cup = || if setup.cup { client_public_keys(w).as_ref().map(StandardCupv2Handler::new) } else { None };
+        let cup = mk_cup();
         let apps: Vec<App> = setup.apps.iter().map(|a| a.to_app()).collect();
         let app_set = Rc::new(AMutex::new(VecAppSet::new(apps)));
         let storage = Rc::new(AMutex::new(SimStorage { w: w.clone() }));
+        let order = setup.builder_order;
+        let placeholder = Config {
+            updater: Updater { name: "placeholder".into(), version: Version::from([0]) },
+            os: OS::default(),
+            service_url: "http://placeholder.invalid/".into(),
+            omaha_public_keys: None,
+        };
+        let (cfg0, cup0) = match order {
+            1 => (placeholder, mk_cup()),
+            2 => (config.clone(), None),
+            3 | 4 => (placeholder, None),
+            _ => (config.clone(), mk_cup()),
+        };
         let builder = StateMachineBuilder::new(
             SimPolicy { w: w.clone(), clock: SimClock { w: w.clone() } },
             SimHttp { w: w.clone() },
@@ -233,10 +252,17 @@ impl Driver {
             SimTimer { w: w.clone() },
             SimMetrics { w: w.clone() },
             storage,
-            config,
+            cfg0,
             app_set,
-            cup,
+            cup0,
         );
+        let builder = match order {
+            1 => builder.config(config),
+            2 => builder.cup_handler(cup),
+            3 => builder.config(config).cup_handler(cup),
+            4 => builder.cup_handler(cup).config(config),
+            _ => builder,
+        };
         let wk = waker(self.root.clone());
         let mut cx = Context::from_waker(&wk);
         let res = crate::common::guard(|| {
